@@ -82,7 +82,7 @@ NextT ==
   /\ ocCount' = IF e.ev = "onclose_out" /\ InTags(e.c) THEN [ocCount EXCEPT ![e.c] = @ + 1] ELSE ocCount
   /\ ocIDs' = IF e.ev = "onclose_in" THEN ocIDs \cup {e.conn} ELSE ocIDs
   /\ eofSeen' = IF e.ev = "eof" /\ InTags(e.c) THEN [eofSeen EXCEPT ![e.c] = TRUE] ELSE eofSeen
-  /\ quiet' = IF e.ev \in {"close", "stopreading"} /\ InTags(e.c) THEN [quiet EXCEPT ![e.c] = TRUE]
+  /\ quiet' = IF e.ev \in {"close", "stopreading", "timeout"} /\ InTags(e.c) THEN [quiet EXCEPT ![e.c] = TRUE]
               ELSE IF e.ev = "stop_call" THEN [c \in Tags |-> TRUE] ELSE quiet
   /\ wrote' = IF e.ev = "hend" /\ e.val = "" /\ e.k # "unbind" THEN wrote \cup {<<e.c, e.i>>} ELSE wrote
   /\ got' = IF e.ev = "recv" THEN got \cup {<<e.c, e.i>>} ELSE got
@@ -100,7 +100,7 @@ ExtraOf(k) == {x \in Extra : x[1] = k}
 NoMissing(k) == ~AtEnd \/ MissingOf(k) = {} \/ Print(<<"MISSING", k, l, MissingOf(k)>>, FALSE)
 NoExtra(k)   == ~AtEnd \/ ExtraOf(k) = {} \/ Print(<<"EXTRA", k, l, ExtraOf(k)>>, FALSE)
 \* ... and they were there before the harness took its next environment action (it waits for them: 3 s at first)
-EnvEvents == {"send", "release", "close", "dial", "stop_call", "stopreading", "emfile"}
+EnvEvents == {"send", "release", "close", "dial", "stop_call", "stopreading", "emfile", "timeout"}
 AtEnv == l >= 1 /\ T[l].ev \in EnvEvents
 NotLate(k) == ~AtEnv \/ MissingOf(k) = {} \/ Print(<<"LATE", k, l, MissingOf(k)>>, FALSE)
 Late_hstart  == NotLate("hstart")      \* a request was not dispatched while earlier handlers were still running (C06)
